@@ -31,8 +31,10 @@ def _run_conf_step(arg):
         sched_desc=run.get("sched"), knobs=run.get("knobs"), glob_seed=run.get("glob_seed"),
         faults=[run["fault"]] if run.get("fault") else None, killable=True, report_path=arg.get("report"),
         dest=root / "out", max_workers=run.get("max_workers", 1), fasta_seed=run.get("fasta_seed"),
+        sqlite=bool(run.get("sqlite")),
     )
     rep = res.fs.report()
+    rep["sqlite_dump"] = res.sqlite_dump
     rep["error"] = res.error
     rep["etype"] = type(res.exc).__name__ if res.exc is not None else None
     rep["site"] = (res.err_sig() or {}).get("site")
